@@ -21,7 +21,7 @@ TIERS = {
 }
 REQUIRED_BUCKETS = ['entry:ident', 'entry:slash', 'entry:list', 'entry:none', 'entry:empty', 'entry:invalid-name', 'entry:invalid-type',
                     'entry:invalid-list', 'exit:return', 'exit:raise-Exception', 'exit:raise-BaseException', 'depth:4+',
-                    'call:direct', 'call:scoped-get', 'call:scoped-ref', 'call:probe-raises-in-scoped', 'threads:scheduled',
+                    'call:direct', 'call:scoped-get', 'call:scoped-ref', 'call:probe-raises-in-scoped', 'call:probe-raises-BaseException-in-scoped', 'entry:deferred', 'entry:decorator', 'threads:shared-scoped-callable', 'threads:scheduled',
                     'threads:free', 'threads:child-in-scope', 'threads:scoped-binding-seen', 'policy:random', 'policy:pct', 'policy:preempt']
 ORACLE_COUNTERS = ['oracle_evals', 'scope_checks', 'thread_scope_checks']
 ASSUMPTIONS = ['interleaving granularity = LINE events inside gin/*.py']
@@ -49,6 +49,22 @@ def setup(ctx):
     probes.RECORDER.rec('raiser', {})
     raise {'Boom': Boom, 'BaseBoom': BaseBoom, 'KeyboardInterrupt': KeyboardInterrupt}[kind]('from probe')
 
+  @gin.configurable('c9raiserbase', module='c9')
+  def raiserbase():
+    probes.RECORDER.rec('raiser', {})
+    raise BaseBoom('from probe (not an Exception)')
+
+  @gin.configurable('c9nest', module='c9')
+  def nest(depth=1):
+    # a configurable that itself opens a named scope and calls a probe inside it
+    outer = gin.current_scope()
+    with gin.config_scope('inner'):
+      inner = gin.current_scope()
+      _S['p'].conf()
+    return (outer, inner, gin.current_scope())
+
+  _S['nest'] = nest
+
   @gin.configurable('c9cons', module='c9')
   def cons(x=None):
     return x
@@ -70,6 +86,8 @@ t2/c9f.v = 't2'
 t3/c9f.v = 't3'
 viaref/c9cons.x = @r1/r2/c9f()
 viaraise/c9cons.x = @r1/c9raiser()
+viaraisebase/c9cons.x = @r1/c9raiserbase()
+vianest/c9cons.x = @n1/n2/c9nest()
 """
 BOUND = {'': 'root', 'a': 'a', 'a/b': 'a/b', 'b': 'b', 'x': 'x', 'x/y': 'x/y', 't0': 't0', 't1': 't1', 't2': 't2', 't3': 't3'}
 
@@ -106,7 +124,8 @@ def gen_node(rng, depth, maxdepth):
     if k < 0.5 and depth < maxdepth:
       body.append(gen_node(rng, depth + 1, maxdepth))
     elif k < 0.85:
-      body.append(['call', rng.choice(['direct', 'scoped-get', 'scoped-ref', 'scoped-raise', 'scoped-get-raise'])])
+      body.append(['call', rng.choice(['direct', 'scoped-get', 'scoped-ref', 'scoped-raise', 'scoped-get-raise', 'scoped-raise-base', 'scoped-get-raise-base',
+                                       'deferred-entry', 'decorator-entry'])])
     else:
       body.append(['check'])
   ex = 'return'
@@ -161,18 +180,47 @@ class Runner:
       with gin.config_scope(['viaref']):
         _S['cons']()
       exp_scope = ['r1', 'r2']
-    elif how in ('scoped-raise', 'scoped-get-raise'):
-      ctx.bucket('call:probe-raises-in-scoped')
+    elif how in ('scoped-raise', 'scoped-get-raise', 'scoped-raise-base', 'scoped-get-raise-base'):
+      base = how.endswith('-base')
+      ctx.bucket('call:probe-raises-BaseException-in-scoped' if base else 'call:probe-raises-in-scoped')
       try:
-        if how == 'scoped-raise':
-          with gin.config_scope(['viaraise']):
+        if how.startswith('scoped-raise'):
+          with gin.config_scope(['viaraisebase' if base else 'viaraise']):
             _S['cons']()
         else:
-          gin.get_configurable('q1/q2/c9raiser')()
+          gin.get_configurable('q1/q2/c9raiser')(kind='KeyboardInterrupt' if base else 'Boom')
         ctx.check(False, 'probe-exception-swallowed', '%s: raising probe did not propagate' % self.label)
-      except Boom:
+      except (Boom, BaseBoom, KeyboardInterrupt):
         pass
-      self.check_scope('after raising scoped call')
+      self.check_scope('after %s scoped call left by %s' % (how, 'a BaseException' if base else 'an Exception'))
+      return
+    elif how == 'deferred-entry':
+      # the context manager object is created under one scope and entered under another: the scope active at *entry* counts
+      ctx.bucket('entry:deferred')
+      cm = gin.config_scope('late')
+      with gin.config_scope('between'):
+        self.m.enter('between')
+        with cm as sc:
+          self.m.enter('late')
+          ctx.check(sc == self.m.cur, 'yielded-scope-differs', '%s: deferred config_scope yielded %r model %r' % (self.label, sc, self.m.cur))
+          self.check_scope('inside a context manager created earlier under another scope')
+          self.m.exit()
+        self.m.exit()
+      self.check_scope('after deferred entry')
+      return
+    elif how == 'decorator-entry':
+      ctx.bucket('entry:decorator')
+      res = {}
+
+      @gin.config_scope('deco')
+      def decorated():
+        res['scope'] = gin.current_scope()
+      with gin.config_scope('around'):
+        decorated()
+        decorated()
+      ctx.check(res['scope'] == self.m.cur + ['around', 'deco'], 'scope-differs-from-model',
+                '%s: function decorated with config_scope saw %r, model %r' % (self.label, res['scope'], self.m.cur + ['around', 'deco']))
+      self.check_scope('after decorated call')
       return
     recs = [r for r in probes.RECORDER.since(mark, p.pid) if r.thread == me]
     if not ctx.check(len(recs) == 1, 'probe-run-count', '%s: %s call ran the probe %d times' % (self.label, how, len(recs))):
@@ -281,6 +329,21 @@ def thread_fn(ctx, prog, label, child):
     r = Runner(ctx, label, counter='thread_scope_checks')
     r.check_scope('thread start')
     r.run_program(prog)
+    # scoped callables shared by all threads: one reference object and one get_configurable() result
+    shared = _S.get('shared_fn')
+    for k in range(2):
+      with gin.config_scope(['vianest']):
+        got = _S['cons']()
+      ctx.count('thread_scope_checks')
+      ctx.check(got == (['n1', 'n2'], ['n1', 'n2', 'inner'], ['n1', 'n2']), 'shared-scoped-reference-saw-other-scope',
+                '%s: a scoped reference shared with other threads ran under (outer, inner, after) = %r' % (label, got))
+      if shared is not None:
+        with gin.config_scope('t0'):
+          got = shared()
+        ctx.count('thread_scope_checks')
+        ctx.check(got == (['h1', 'h2'], ['h1', 'h2', 'inner'], ['h1', 'h2']), 'shared-scoped-callable-saw-other-scope',
+                  '%s: a scoped configurable shared with other threads ran under (outer, inner, after) = %r' % (label, got))
+      r.check_scope('after shared scoped calls')
     if child:
       res = {}
 
@@ -321,6 +384,8 @@ def run_threads(ctx, case):
   for i in range(nt):
     thread_fn(ctx, case['progs'][i], 'warm%d' % i, False)()
   undo = s.swap_locks(gc)
+  _S['shared_fn'] = gin.get_configurable('h1/h2/c9nest')
+  ctx.bucket('threads:shared-scoped-callable')
 
   def one(policy, label):
     fns = [thread_fn(ctx, case['progs'][i], '%s t%d' % (label, i), False) for i in range(nt)]
